@@ -92,6 +92,9 @@ def _maneuvers(sv, spec, k):
     out = []
     for j, (kind, fr, com) in enumerate(spec):
         d = sv.date + timedelta(seconds=600.0 * (j + 1) + 0.000123 * (j + 1))
+        if (k + j) % 2:
+            # the same instant, labelled in another time scale than the state's: the message has one TIME_SYSTEM, so it comes back in the state's scale
+            d = d.change_scale("TAI" if sv.date.scale.name != "TAI" else "TT")
         dv = [0.5 + j, -1.25 * (k % 3 + 1), 0.000123 + 0.001 * j]
         comment = f"burn {j}" if com else None
         if kind == "impulsive":
@@ -161,7 +164,7 @@ def _cmp_mans(cmp, a, b):
     for x, y in zip(ma, mb):
         cmp.check("maneuvers", type(x) is type(y), f"kind {type(x).__name__} {type(y).__name__}")
         xs, ys = (x.start, y.start) if isinstance(x, ContinuousMan) and isinstance(y, ContinuousMan) else (x.date, getattr(y, "date", None))
-        cmp.check("maneuvers", ys is not None and _same_date(xs, ys), f"epoch {xs!r} {ys!r}")
+        cmp.check("maneuvers", ys is not None and _same_date(xs.change_scale(a.date.scale.name), ys), f"epoch {xs!r} {ys!r}")
         if isinstance(x, ContinuousMan) and isinstance(y, ContinuousMan):
             cmp.check("maneuvers", abs(x.duration.total_seconds() - y.duration.total_seconds()) <= 0.5e-3, "duration")
         cmp.check("maneuvers", bool(np.all(np.abs(np.asarray(x._dv, dtype=float) - np.asarray(y._dv, dtype=float)) <= 1.0e-3 * (1 + 1e-9))), f"dv {x._dv} {y._dv}")
@@ -381,6 +384,9 @@ def _(c):
                 x = [v * (0.3 if j < 3 else 0.25) for j, v in enumerate(x)]
             step = 60.0 if k % 4 else 0.25  # some ephemerides with several points within the same second
             sv = StateVector(x, _date(k + s, scale) + timedelta(seconds=step * i + 0.000001 * i), "cartesian", _frame(fr))
+            if (k + s) % 3 == 1 and i % 2 and scale not in ("UT1", "TDB"):
+                # some ephemerides hold points whose dates carry another label (the same instants): the segment has one TIME_SYSTEM, the first point's
+                sv.date = sv.date.change_scale("TAI" if scale != "TAI" else "GPS")
             covs = c.integer("covs")
             if covs == 3 or (covs == 1 and i == 0) or (covs == 2 and i % 2 == 1):
                 cf = c.integer("covframe")
@@ -405,6 +411,9 @@ def _(c):
             cmp.check("name_id", (ea.name, ea.cospar_id) == (getattr(eb, "name", None), getattr(eb, "cospar_id", None)), f"{getattr(eb, 'name', None)}")
             for pa, pb in zip(ea, eb):
                 sub = _Cmp()
+                if pa.date.scale.name != ea.start.scale.name:
+                    pa = pa.copy()
+                    pa.date = pa.date.change_scale(ea.start.scale.name)
                 _cmp_state(sub, pa, pb, name=ea.name, cospar=ea.cospar_id)
                 for asp, bad in sub.bad.items():
                     if asp != "name_id":
